@@ -181,11 +181,11 @@ func findSegMetaFromTime(a *asset, rep *RepData, time uint64, cfg *ResponseConfi
 	timeAfterWrap := int(time) - wrapTime
 	idx := rep.findSegmentIndexFromTime(uint64(timeAfterWrap))
 	if idx == len(rep.Segments) {
-		return segMeta{}, fmt.Errorf("no matching segment")
+		return segMeta{}, fmt.Errorf("no matching segment: %w", errNotFound)
 	}
 	seg := rep.Segments[idx]
 	if seg.StartTime != uint64(timeAfterWrap) {
-		return segMeta{}, fmt.Errorf("segment time mismatch %d <-> %d", timeAfterWrap, seg.StartTime)
+		return segMeta{}, fmt.Errorf("segment time mismatch %d <-> %d: %w", timeAfterWrap, seg.StartTime, errNotFound)
 	}
 
 	// Check interval validity
@@ -216,7 +216,7 @@ func findRefSegMetaFromTime(a *asset, rep *RepData, time uint64, cfg *ResponseCo
 	}
 	sampleDur := *rep.ConstantSampleDuration
 	if time%uint64(sampleDur) != 0 {
-		return sm, fmt.Errorf("time must be multiple of sample duration")
+		return sm, fmt.Errorf("time must be multiple of sample duration: %w", errNotFound)
 	}
 	refRep := a.refRep
 	refTotDur := uint64(refRep.duration())
@@ -247,7 +247,7 @@ func findRefSegMetaFromTime(a *asset, rep *RepData, time uint64, cfg *ResponseCo
 		relNr++
 	}
 	if refEndTime == 0 {
-		return sm, fmt.Errorf("no matching reference segment")
+		return sm, fmt.Errorf("no matching reference segment: %w", errNotFound)
 	}
 	dur := uint32(refRep.Segments[relNr].EndTime - refRep.Segments[relNr].StartTime)
 
@@ -525,8 +525,8 @@ func findRepAndSegmentID(a *asset, segmentPart string) (r *RepData, segID int, e
 			return nil, -1, fmt.Errorf("bad segment match")
 		}
 		segID, err = strconv.Atoi(mParts[1])
-		if err != nil {
-			return nil, -1, err
+		if err != nil { // e.g. a number that does not fit an int: no such segment
+			return nil, -1, fmt.Errorf("segment id %q: %w", mParts[1], errNotFound)
 		}
 		return rep, segID, nil
 	}
